@@ -142,8 +142,48 @@ func (ic *inlineCtx) pureArg(e ast.Expr) bool {
 }
 
 // bind builds the substitution parameter object -> argument expression.
-func (ic *inlineCtx) bind(ftype *ast.FuncType, recvName *ast.Ident, recvArg ast.Expr, call *ast.CallExpr) (map[types.Object]ast.Expr, bool) {
+func (ic *inlineCtx) bind(ftype *ast.FuncType, recvName *ast.Ident, recvArg ast.Expr, call *ast.CallExpr, body ast.Node) (map[types.Object]ast.Expr, bool) {
 	sub := map[types.Object]ast.Expr{}
+	// an argument with possible side effects may replace a parameter that the body reads exactly once,
+	// outside any loop or closure (it is then evaluated once, as at the call)
+	usedOnce := func(o types.Object) bool {
+		n, nested := 0, false
+		var walk func(x ast.Node, inLoop bool)
+		walk = func(x ast.Node, inLoop bool) {
+			ast.Inspect(x, func(y ast.Node) bool {
+				switch z := y.(type) {
+				case *ast.ForStmt:
+					if z != x {
+						walk(z.Body, true)
+						return false
+					}
+				case *ast.RangeStmt:
+					if z != x {
+						walk(z.Body, true)
+						return false
+					}
+				case *ast.FuncLit:
+					walk(z.Body, true)
+					return false
+				case *ast.Ident:
+					if ic.info.Uses[z] == o {
+						n++
+						if inLoop {
+							nested = true
+						}
+					}
+				}
+				return true
+			})
+		}
+		if body != nil {
+			walk(body, false)
+		}
+		return n <= 1 && !nested
+	}
+	okArg := func(a ast.Expr, o types.Object) bool {
+		return ic.pureArg(a) || (o != nil && body != nil && usedOnce(o))
+	}
 	if recvName != nil && recvArg != nil {
 		if !ic.pureArg(recvArg) {
 			return nil, false
@@ -154,9 +194,31 @@ func (ic *inlineCtx) bind(ftype *ast.FuncType, recvName *ast.Ident, recvArg ast.
 	}
 	i := 0
 	for _, f := range ftype.Params.List {
-		if _, variadic := f.Type.(*ast.Ellipsis); variadic {
-			// only the spread form f(xs...) binds a variadic parameter exactly
-			if !call.Ellipsis.IsValid() || len(f.Names) != 1 || i != len(call.Args)-1 {
+		if ell, variadic := f.Type.(*ast.Ellipsis); variadic {
+			if len(f.Names) != 1 {
+				return nil, false
+			}
+			if !call.Ellipsis.IsValid() {
+				// f(a, b, c) binds the variadic parameter to the fresh slice []T{a, b, c}
+				var elts []ast.Expr
+				o := ic.info.Defs[f.Names[0]]
+				if o == nil {
+					return nil, false
+				}
+				for _, a := range call.Args[i:] {
+					if !okArg(a, o) {
+						return nil, false
+					}
+					elts = append(elts, a)
+				}
+				at := &ast.ArrayType{Elt: ell.Elt}
+				ic.info.Types[at] = types.TypeAndValue{Type: o.Type()}
+				cl := &ast.CompositeLit{Type: at, Lbrace: call.Lparen, Elts: elts, Rbrace: call.Rparen}
+				ic.info.Types[cl] = types.TypeAndValue{Type: o.Type()}
+				sub[o] = cl
+				return sub, true
+			}
+			if i != len(call.Args)-1 {
 				return nil, false
 			}
 		}
@@ -165,7 +227,7 @@ func (ic *inlineCtx) bind(ftype *ast.FuncType, recvName *ast.Ident, recvArg ast.
 			continue
 		}
 		for _, nm := range f.Names {
-			if i >= len(call.Args) || !ic.pureArg(call.Args[i]) {
+			if i >= len(call.Args) || !okArg(call.Args[i], ic.info.Defs[nm]) {
 				return nil, false
 			}
 			if o := ic.info.Defs[nm]; o != nil {
@@ -400,7 +462,7 @@ func (ic *inlineCtx) expandExprCall(call *ast.CallExpr) (ast.Expr, bool) {
 	if !ok {
 		return nil, false
 	}
-	sub, ok := ic.bind(ftype, recvName, recvArg, call)
+	sub, ok := ic.bind(ftype, recvName, recvArg, call, body)
 	if !ok || ic.assignsParam(body, sub) {
 		return nil, false
 	}
@@ -425,7 +487,7 @@ func (ic *inlineCtx) expandTailCall(list []ast.Stmt) ([]ast.Stmt, bool) {
 	if !ok || ic.callsItself(body, ftype) || hasDefer(body) {
 		return nil, false
 	}
-	sub, ok := ic.bind(ftype, recvName, recvArg, call)
+	sub, ok := ic.bind(ftype, recvName, recvArg, call, body)
 	if !ok || ic.assignsParam(body, sub) {
 		return nil, false
 	}
@@ -463,7 +525,7 @@ func (ic *inlineCtx) expandVoidCall(st ast.Stmt) ([]ast.Stmt, bool) {
 	if hasRet {
 		return nil, false
 	}
-	sub, ok := ic.bind(ftype, recvName, recvArg, call)
+	sub, ok := ic.bind(ftype, recvName, recvArg, call, body)
 	if !ok || ic.assignsParam(body, sub) {
 		return nil, false
 	}
